@@ -336,7 +336,7 @@ func harvest(seed uint64) *fixtures {
 	w := vh.NewWorld(r, vh.WorldOpts{Chain: vh.Config{Seed: seed, KeepBlocks: true}, NumEOA: 3})
 	defer w.C.Cleanup()
 	fx := &fixtures{enc: w.C.Enc}
-	logger := vh.NewAsm().Log(7, 1, 2).Log(9, 3).Bytes()
+	logger := vh.NewAsm().Log(7, 1, 2).Log(9, 3).Log(5).Bytes() // logs with 2, 1 and 0 topics
 	var plans []*vh.TxPlan
 	plans = append(plans, w.PlanEth(w.EOAs[0], nil, nil, 500000, vh.Deployer(append(logger, 0x00)), "ok", nil))
 	w.RunPlans(plans, nil, nil)
@@ -407,6 +407,28 @@ func emitter(fc *FakeComet, fx *fixtures, stop <-chan struct{}, wg *sync.WaitGro
 			runtime.Gosched()
 		}
 	}
+}
+
+// randCriteria draws log-filter criteria of every shape the API accepts: no / matching / foreign address, topic lists
+// shorter, as long as and LONGER than the topic lists of the logs that will arrive (the fixture logs carry 1 and 2
+// topics), with wildcard (empty) positions before a constrained one.
+func randCriteria(r *vh.RNG, fx *fixtures) ethfilters.FilterCriteria {
+	var c ethfilters.FilterCriteria
+	if r.Chance(1, 3) {
+		c.Addresses = []common.Address{common.BytesToAddress(r.Bytes(20))}
+	}
+	t := func(b byte) common.Hash { return common.BytesToHash([]byte{b}) }
+	c.Topics = vh.Pick(r, [][][]common.Hash{
+		nil, {}, {{}}, {{t(1)}}, {{t(7)}, {}}, {{}, {t(2)}}, {{}, {}, {t(9)}}, {{}, {}, {}, {t(3)}}, {{t(7), t(9)}, {t(2), t(3)}}, {{}, {t(1)}, {}, {}},
+	})
+	return c
+}
+
+var wsLogCriteria = []string{
+	`{"topics":[]}`, `{}`, `{"topics":[null,"0x0000000000000000000000000000000000000000000000000000000000000002"]}`,
+	`{"topics":[null,null,"0x0000000000000000000000000000000000000000000000000000000000000009"]}`,
+	`{"topics":[null,null,null,["0x0000000000000000000000000000000000000000000000000000000000000003"]]}`,
+	`{"address":"0x00000000000000000000000000000000000000aa","topics":[["0x0000000000000000000000000000000000000000000000000000000000000001"]]}`,
 }
 
 // stubBackend implements filters.Backend with static answers.
@@ -482,7 +504,7 @@ func (l *legCtx) filtersTrial(r *vh.RNG, t int, fx *fixtures) {
 					l.count("filters_new_pending_filter", 1)
 				default:
 					var e error
-					id, e = api.NewFilter(ethfilters.FilterCriteria{})
+					id, e = api.NewFilter(randCriteria(wr, fx))
 					if e != nil {
 						l.count("filters_new_log_filter_refused", 1)
 						continue
@@ -507,6 +529,17 @@ func (l *legCtx) filtersTrial(r *vh.RNG, t int, fx *fixtures) {
 				if wr.Chance(9, 10) {
 					api.UninstallFilter(id)
 					l.count("filters_uninstalled", 1)
+					// a client retry / duplicate request in a batch: the same id uninstalled again, at once or concurrently
+					switch wr.Intn(6) {
+					case 0:
+						api.UninstallFilter(id)
+						l.count("filters_uninstalled_twice", 1)
+					case 1:
+						wg.Add(1)
+						go func(id ethrpc.ID) { defer wg.Done(); api.UninstallFilter(id) }(id)
+						api.UninstallFilter(id)
+						l.count("filters_uninstalled_twice_concurrently", 1)
+					}
 				}
 			}
 		}()
@@ -663,7 +696,7 @@ func (l *legCtx) websocketTrial(r *vh.RNG, t int, fx *fixtures) {
 						frame = `{"jsonrpc":"2.0","method":"eth_subscribe","id":` + strconv.Itoa(k) + `,"params":["newHeads"]}`
 						l.count("ws_subscribe_newHeads", 1)
 					case 2:
-						frame = `{"jsonrpc":"2.0","method":"eth_subscribe","id":` + strconv.Itoa(k) + `,"params":["logs",{"topics":[]}]}`
+						frame = `{"jsonrpc":"2.0","method":"eth_subscribe","id":` + strconv.Itoa(k) + `,"params":["logs",` + vh.Pick(cr, wsLogCriteria) + `]}`
 						l.count("ws_subscribe_logs", 1)
 					case 3:
 						frame = `{"jsonrpc":"2.0","method":"eth_subscribe","id":` + strconv.Itoa(k) + `,"params":["newPendingTransactions"]}`
@@ -685,6 +718,10 @@ func (l *legCtx) websocketTrial(r *vh.RNG, t int, fx *fixtures) {
 					}
 					if err := c.WriteMessage(websocket.TextMessage, []byte(frame)); err != nil {
 						break
+					}
+					if strings.Contains(frame, "eth_unsubscribe") && cr.Chance(1, 4) { // the same unsubscribe sent again
+						_ = c.WriteMessage(websocket.TextMessage, []byte(frame))
+						l.count("ws_unsubscribe_duplicates", 1)
 					}
 					if cr.Chance(1, 2) {
 						time.Sleep(time.Duration(cr.Intn(800)) * time.Microsecond)
